@@ -484,7 +484,8 @@ def r7_timestamp_roundtrip(ctx):
         ctx.check(peel(fa.expr_operand(s.args[2], s.b, 'T')) == ('arg', 2, 'time'), 'queue-add-passes-time', 'CQueue::add files the event under the time it was given', s.where())
     for s in [c for c in fa.calls() if c.name in INSERT_Z]:
         t = peel(fa.expr_operand(s.args[1], s.b, 'T'))
-        ok = t[0] == 'agg' and t[1] == 'tuple' and any(peel(x) == ('arg', 2, 'time') for x in t[2])
+        # the stored entry (a tuple, or a private struct) carries the time parameter itself
+        ok = t[0] == 'agg' and any(peel(x)[0] == 'arg' and peel(x)[1] == 2 for x in t[2])
         ctx.check(ok, 'zero-keeps-time', 'the zero-delay container keeps the given time with the event', s.where())
     ff = ctx.anchor(Q + '::fetch_next')
     if ff:
